@@ -55,11 +55,12 @@ PROPS.update({
                 invariants="HavocExact, TypeOK (MC_Wasm, GEN); WasmNeverTraps, WasmEqualsNative = Render predicates on NativeOf(W_After(program)) + string equality with the native output (TV)"),
     "C18": dict(scen=[("core", "frames", True), ("core", "sessions", True)], mc=mcq("MC_Render"),
                 invariants="FrameDefault, FrameImageCentred, monotone frame side (FrameSweep), FrameOverrides (TV)"),
-    "C19": dict(scen=[("core", "fileio", True)], mc={"quick": [], "thorough": []}, apalache=["FileInd"],
+    "C19": dict(scen=[("core", "fileio", True), ("core", "fileconc", True)], mc={"quick": [], "thorough": []}, apalache=["FileInd"],
                 invariants="FileAllOrError (MC_FileIO, GEN -> replay), F_Run(fault, AbsOff(limit, len)) = observed return (TV); FileInd: inductive invariant for any number of chunks (Apalache)"),
 })
 # scenarios whose programs / behaviours are generated by TLC from a machine of the specification (GEN -> replay -> TV)
 GEN = {"fileio": ("FileIO.tla", "MC_FileIO.cfg", False), "wasm": ("MC_Wasm.tla", "MC_Wasm_{tier}.cfg", True),
+       "fileconc": ("FileIO2.tla", "MC_FileIO2.cfg", False),
        "histories": ("MC_Builder.tla", "MC_Builder_{variant}_{tier}.cfg", False),
        "sessions": ("MC_RenderSession.tla", "MC_RenderSession_{tier}.cfg", True)}
 PROPS["C14"] = dict(scen=[("core", "histories:SeqEclMask", True), ("core", "histories:SeqModeVersion", True), ("core", "histories:EclMask", True), ("core", "histories:ModeVersion", True), ("core", "histories:EclVersion", True), ("core", "histories:SeqRejected", True), ("core", "histories:Rejected", True), ("core", "aftermath", True), ("core", "threads", True), ("core", "sessions", True), ("core", "soak", True)],
@@ -85,13 +86,13 @@ CLAIMS = {
          "The division is GF(2)-linear, so the basis covers every content for defects that are linear; content-dependent control-flow defects are covered by the random blocks (sampled)."),
  "C08": ("For all 40 versions the same payload is built with the eight forced masks and automatic selection; un-masking each symbol with the mask named in its own format bits must give the same matrix (function modules included, format strip excluded); each mask sweep alone is judged against the Table 10 condition on blank, all-dark and random fills through the hook tier.",
          "One level per version in the quick tier (all four in thorough); payloads sampled."),
- "C09": ("Reported mode and decoded mode indicator against BestMode: all 256 byte values at every position of strings of length <= 4 and at four positions of lengths 8, 9, 16, 17, 33, with digit and alphanumeric filler; all class patterns up to length 6 / 8; long strings; the classifier alone on 6 000 / 100 000 inputs through the hook tier. A crash of an automatic-mode build is attributed to this property when the same input builds with the most compact mode forced.",
+ "C09": ("Reported mode and decoded mode indicator against BestMode: all 256 byte values at every position of strings of length <= 4 and at four positions of lengths 8, 9, 16, 17, 33, with digit and alphanumeric filler; all class patterns up to length 6 / 8; long strings; valid UTF-8 texts drawn by Unicode category (digits of other scripts, other numerics, letters, white space, full-width look-alikes, zero-width characters) alone and mixed with ASCII digits and upper case; the classifier alone on 6 000 / 100 000 inputs through the hook tier. A crash of an automatic-mode build is attributed to this property when the same input builds with the most compact mode forced.",
          "Long strings are sampled."),
  "C10": ("Every build runs under catch_unwind on a watchdog thread with overflow checks and debug assertions on; Panic/Timeout outcomes match no action. Covered: seeded lengths up to 8 000 (every length in thorough), the 2^16 neighbourhood, 10^5/10^6 and 390-537 MB inputs (beyond 2^32 in thorough), builds that follow a rejected or failing request on the same thread (aftermath), six content kinds, every byte value as only content, the empty input, all combinations of {unset, smallest, largest} per option.",
          "Non-termination is bounded by a 30 s watchdog, not proved. Memory safety is what Rust's checks plus the enabled assertions trap."),
  "C11": ("The recorder hook gives the eight candidates as the selection loop saw them; TLC computes the documented penalty of each (runs, 1011101 windows, 2x2 blocks, dark ratio; line-scan formulation proved equal to the per-cell one on sample matrices) and the emitted mask must be an arg-min; a forced mask must override. Inputs are selected for close calls (700 closest of 12 000 small symbols), uniform contents reach the highest penalties, and a steered search puts a candidate exactly on a step of the dark-ratio term (2/5 or 3/5 of the modules dark, versions whose side is a multiple of 5) while within ten points of the best other candidate. Design level: the selection loop is model-checked over all score vectors in a small range and proved for unbounded scores with Apalache. Public-API fallback: eight forced-mask builds plus the automatic one.",
          "Payload-sampled: only a flipped arg-min is observable. Ties are allowed."),
- "C12": ("MC_Render model-checks the register machine and the model's own SVG renderer (all 512 3x3 matrices x setter programs) against the same predicates; the harness generates every builder program up to length 2 (3 in thorough, sampled) over 21 abstract calls plus random longer ones, all 40 versions x 6 shapes, hand-made matrices (all dark, all light, stripes, border, sparse), custom shape callbacks, renderer sessions exported by TLC, a pool of 27 image strings; a roxmltree + kurbo sensor projects each document (well-formedness, viewBox, rectangles, per layer the cell of every sub-path, colours, image href) and TLC judges the projection against the register machine RegsAfter(program).",
+ "C12": ("MC_Render model-checks the register machine and the model's own SVG renderer (all 512 3x3 matrices x setter programs) against the same predicates; the harness generates every builder program up to length 2 (3 in thorough, sampled) over 21 abstract calls plus random longer ones, all 40 versions x 6 shapes, hand-made matrices (all dark, all light, stripes, border, sparse), custom shape callbacks, renderer sessions exported by TLC, a pool of 88 image strings (XML specials x non-ASCII in every order) and structured references (data URIs with parameters, URLs, paths) with a special inserted at every position and around every token (474 / about 3 300 documents); a roxmltree + kurbo sensor projects each document (well-formedness, viewBox, rectangles, per layer the cell of every sub-path, colours, image href) and TLC judges the projection against the register machine RegsAfter(program).",
          "XML and SVG path syntax are read by the sensor (roxmltree, kurbo), not by TLA+. hrefs are compared modulo XML attribute-value normalisation."),
  "C13": ("Pixmaps of 6 shapes x versions x margins x 6 fit modes x 4 colour pairs are projected to a palette and a per-cell palette index (plus cell uniformity at integer scale); TLC computes the expected side and premultiplied colours from the program and judges every cell centre (>= 4 px per module, or square at integer scale) and every cell of square symbols; the PNG is decoded independently and must equal the pixmap.",
          "resvg's rasterisation is observed, not modelled; translucent module colours are outside the claimed domain."),
@@ -105,7 +106,7 @@ CLAIMS = {
          "Needs the hook tier (exit 2 without it). A malformed value leaves its register unspecified in the model."),
  "C18": ("Default frames for all 40 versions x 3 shapes x margins 0..16 (and 17, 33, 64, 120) (one event per (shape, margin) holding all versions: centred, module-aligned, below 40%, clear of the finder boxes, image centred and not larger, side monotone in the version); 420 / 6 000 explicit size / gap / position overrides on quarter-module and arbitrary 3-decimal values with tolerances derived from the two-decimal printing.",
          "Overrides are sampled."),
- "C19": ("TLC explores the to_file machine under every fault class x strike offset and exports the 13 behaviours; each is replayed with real faults (missing directory, directory, path below a file, /proc, over-long name, symlink loop, /dev/full, RLIMIT_FSIZE at byte k) for both renderers on four option sets; Ok must coincide with 'no fault struck' and with the file holding exactly the in-memory rendering.",
+ "C19": ("TLC explores the to_file machine under every fault class x strike offset and exports the 29 behaviours; each is replayed with real faults (missing directory, directory, path below a file, /proc, over-long name, symlink loop, /dev/full, RLIMIT_FSIZE at byte k) for both renderers on four option sets; Ok must coincide with 'no fault struck' and with the file holding exactly the in-memory rendering. The target is pre-populated with nothing / a shorter / a longer file; ten kinds of unusual legal names (spaces, unicode, leading dash, no extension, relative, through a symlink, 255 bytes); FileIO2.tla: two calls in flight on different paths of one directory, every interleaving, invariant Independent - its 200 pairs replayed on two threads released by a barrier, then 60 / 400 race rounds of four simultaneous writes.",
          "Write-time offsets are abstracted to five classes (0, 1, middle, len-1, len); 64 offsets are swept in thorough."),
 }
 
